@@ -69,6 +69,10 @@ func c17Files() [][]rdbgen.Item {
 		if i%3 == 0 {
 			opts = rdbgen.KeyOpts{ExpKind: "ms", ExpAt: 4102444800000 + uint64(i)}
 		}
+		if i%6 == 3 {
+			// expiry written in seconds (old Redis versions, other writers)
+			opts = rdbgen.KeyOpts{ExpKind: "s", ExpAt: 4102444800 + uint64(i)}
+		}
 		cur = append(cur, rdbgen.Key(rdbgen.RawStr(name, rdbgen.LCanon), v, opts))
 		if i%5 == 4 {
 			cur = append(cur, rdbgen.SelectDB(uint32(i%7), rdbgen.LCanon))
